@@ -337,13 +337,13 @@ func C14valid(p *load.Program, run *report.Run) {
 		// success return
 		for _, b := range fn.Blocks {
 			ret, ok := b.Instrs[len(b.Instrs)-1].(*ssa.Return)
-			if !ok || len(ret.Results) != 2 {
+			if !ok || len(load.Results(ret)) != 2 {
 				continue
 			}
-			if c, ok := ret.Results[1].(*ssa.Const); !ok || !c.IsNil() {
+			if c, ok := load.Results(ret)[1].(*ssa.Const); !ok || !c.IsNil() {
 				continue
 			}
-			if c, ok := ret.Results[0].(*ssa.Const); ok && c.IsNil() {
+			if c, ok := load.Results(ret)[0].(*ssa.Const); ok && c.IsNil() {
 				continue
 			}
 			key := "circuit." + name + "/success"
@@ -472,7 +472,7 @@ func fullScan(lb *ssa.BasicBlock, seenSlice ssa.Value, ret *ssa.BasicBlock) bool
 			if !ok {
 				return false
 			}
-			if k, isC := r.Results[len(r.Results)-1].(*ssa.Const); isC && k.IsNil() {
+			if k, isC := load.Results(r)[len(load.Results(r))-1].(*ssa.Const); isC && k.IsNil() {
 				return false
 			}
 		}
